@@ -98,6 +98,16 @@ theorem C17_renko_blocks (o : RenkoOut) (hlen : 1 ≤ o.len) :
     (o.blocks.map (·.volume)).sum = o.totalVolume ∧
     (o.block 0).open_ = o.base_line := Renko.blocks_spec o hlen
 
+/-- the aggregate view of a step's bricks closes where its last brick closes and opens where its first opens -/
+theorem C17_renko_aggregate (o : RenkoOut) (h : 0 < o.len) :
+    o.close = (o.block (o.len - 1)).close ∧ (o.block 0).open_ = o.base_line := by
+  unfold RenkoOut.close RenkoOut.block
+  have e : ((o.len - 1 + 1 : Nat)) = o.len := by omega
+  simp only [e]
+  constructor
+  · ring
+  · simp
+
 /-! non-vacuity: a concrete Renko state (bricks of 1% around 100) satisfies the invariant and a
     price on the boundary satisfies the hypothesis of `C17_renko_rising` -/
 example : Renko.Inv ⟨101, 99, 101 * (1 + 1 / 100), 99 * (1 - 1 / 100), 1 / 100, .close, 0⟩ ∧
@@ -116,3 +126,4 @@ end Yata.C17
 #print axioms Yata.C17.C17_renko_rising
 #print axioms Yata.C17.C17_renko_blocks
 #print axioms Yata.C17.C17_renko_falling
+#print axioms Yata.C17.C17_renko_aggregate
